@@ -51,6 +51,7 @@ mcArgLits == %s
  NKeys = %d
  Lits <- mcLits
  MaxRefs = %d
+ BuildRefs = %d
  MaxLen = %d
  OpsOn <- mcOps
  ArgScalars <- mcScalars
@@ -66,7 +67,7 @@ INIT Init
 NEXT Next
 INVARIANTS %s
 CHECK_DEADLOCK FALSE
-""" % (nk, c["maxrefs"], c["maxlen"], "TRUE" if c["argrefs"] else "FALSE", c["slack"], c["tfkeys"], c["tfidx"], c["tflen"], c["tfread"], " ".join(c["invariants"]))
+""" % (nk, c["maxrefs"], c.get("buildrefs") or c["maxrefs"], c["maxlen"], "TRUE" if c["argrefs"] else "FALSE", c["slack"], c["tfkeys"], c["tfidx"], c["tflen"], c["tfread"], " ".join(c["invariants"]))
     return mod, cfg
 
 
@@ -174,6 +175,8 @@ def configs_for(prop, tier):
                  conc=["weird", "plain"], depth=3, walks=6000, walklen=40),
             dict(name="objs-r3-k1", maxrefs=3, nkeys=1, maxlen=1, scalars=[("str", 1)], lits=[("L", []), OBJLIT], arglits=[2],
                  ops=["NewObject", "NewList"] + OBJ_MUT + OBJ_DER, conc=["weird"], depth=3, walks=6000),
+            dict(name="merge-r3-k2", maxrefs=3, nkeys=2, maxlen=2, scalars=[("int", 1), ("nil", 0)], argrefs=False,
+                 ops=["NewObject", "NewObject2", "Set", "Unset", "Merge", "Pluck", "Keys", "Values"], conc=["weird"], depth=3, walks=6000),
         ]
         if q:
             return base
@@ -204,7 +207,14 @@ def configs_for(prop, tier):
         base = [
             dict(name="clone-r4", maxrefs=4, nkeys=1, maxlen=1, scalars=[("int", 1)],
                  ops=["NewList", "NewObject", "Clone", "CloneO", "Add", "Replace", "Pop", "Set", "Unset", "SetTF", "UnsetTF"],
-                 tfkeys=1, tfidx=0, tflen=2, conc=["tf"], obs="equals,getters", depth=4, walks=6000, walklen=30),
+                 tfkeys=1, tfidx=0, tflen=2, conc=["tf"], obs="equals,getters", depth=3, walks=6000, walklen=30),
+            # clones of containers that were themselves produced by derivations
+            dict(name="clone-derived-r5", maxrefs=5, buildrefs=2, nkeys=1, maxlen=2, scalars=[("int", 1)], slack=0,
+                 ops=["NewList", "NewObject", "Clone", "CloneO", "SubList", "Concat", "FilterAll", "MapId", "Values", "Pluck", "Merge", "MapIdO"],
+                 conc=["plain"], obs="equals", depth=4, walks=4000, walklen=12),
+            dict(name="clone-alias-r5", maxrefs=5, buildrefs=2, nkeys=1, maxlen=2, scalars=[("int", 1)],
+                 ops=["NewList", "NewList2", "NewListOf", "NewObject", "Clone", "CloneO"],
+                 conc=["plain"], obs="equals", depth=4, walks=2000, walklen=10),
         ]
         if q:
             return base
@@ -271,10 +281,17 @@ def configs_for(prop, tier):
         base = [
             dict(name="native-r3", maxrefs=3, nkeys=1, maxlen=2, scalars=[("int", 1)], ops=NO,
                  conc=["weird"], obs="getters", depth=3, walks=10000, walklen=30),
+            # aliasing inside the converted container (one container stored twice)
+            dict(name="native-alias-r5", maxrefs=5, buildrefs=2, nkeys=1, maxlen=2, scalars=[("int", 1)],
+                 ops=["NewList", "NewList2", "NewListOf", "NewObject", "NativeSlice", "NativeDict", "Slice", "Dict"],
+                 conc=["plain"], obs="getters", depth=4, walks=2000, walklen=10),
         ]
         if q:
             return base
         return base + [
+            dict(name="native-alias-r6", maxrefs=6, buildrefs=3, nkeys=1, maxlen=2, scalars=[("int", 1)],
+                 ops=["NewList", "NewListOf", "NewObject", "NativeSlice", "NativeDict"],
+                 conc=["plain"], obs="getters", depth=4, walks=20000, walklen=10),
             dict(name="native-r4", maxrefs=4, nkeys=1, maxlen=2, scalars=[("int", 1), ("nil", 0)], ops=NO,
                  conc=["plain"], obs="getters", depth=3, walks=200000, walklen=30, tlc_timeout=1800, budget="12m"),
         ]
